@@ -76,12 +76,13 @@ type ownCase struct {
 	Revs      [3]ownRev // slot 0: data T1 (the set's template), 1: T2, 2: T3
 	EqualNums bool      // all revisions carry the same revision number
 	PinB      bool      // pod 2 carries the label of revision slot 1
+	PinTerm   bool      // ... and is terminating
 	API       string    // "same", "api-deleting", "cache-deleting", "other-uid", "absent"
 	Paused    bool
 }
 
 func (c ownCase) String() string {
-	return fmt.Sprintf("%s lim=%d pods=%v revs=%v equalnums=%v pinB=%v api=%s paused=%v", c.Policy, c.Limit, c.Pods, c.Revs, c.EqualNums, c.PinB, c.API, c.Paused)
+	return fmt.Sprintf("%s lim=%d pods=%v revs=%v equalnums=%v pinB=%v pinTerminating=%v api=%s paused=%v", c.Policy, c.Limit, c.Pods, c.Revs, c.EqualNums, c.PinB, c.PinTerm, c.API, c.Paused)
 }
 
 func podNameFor(shape string, i int) string {
@@ -167,7 +168,7 @@ func (c ownCase) Build(w *world.World) *world.State {
 		if c.PinB && i == 2 {
 			rev, tmpl = names[1], 2
 		}
-		cell := gen.Cell{Present: true, Phase: v1.PodRunning, Ready: true, Term: pc.Term, Owner: pc.Owner, NoMatch: pc.NoMatch}
+		cell := gen.Cell{Present: true, Phase: v1.PodRunning, Ready: true, Term: pc.Term || (c.PinB && c.PinTerm && i == 2), Owner: pc.Owner, NoMatch: pc.NoMatch}
 		p := gen.BuildPod(set, i, cell, rev, tmpl, nil)
 		p.Name = podNameFor(pc.Shape, i)
 		p.UID = types.UID("uid-pod-" + p.Name)
@@ -280,7 +281,8 @@ func ownGrid(apis []string, policies []string, paused bool, podDepth int, thorou
 			rc := ownRevCells()
 			limits := []int32{0, 1, 10}
 			for _, lim := range limits {
-				for _, pin := range []bool{false, true} {
+				for _, pinMode := range []int{0, 1, 2} {
+					pin, pinTerm := pinMode > 0, pinMode == 2
 					for _, eq := range []bool{false, true} {
 						if eq && !thorough && lim != 0 {
 							continue
@@ -289,7 +291,7 @@ func ownGrid(apis []string, policies []string, paused bool, podDepth int, thorou
 							for _, b := range rc {
 								for _, c3 := range rc {
 									c := base
-									c.Limit, c.PinB, c.EqualNums = lim, pin, eq
+									c.Limit, c.PinB, c.PinTerm, c.EqualNums = lim, pin, pinTerm, eq
 									c.Revs = [3]ownRev{a, b, c3}
 									if !emit(c) {
 										return
@@ -314,7 +316,7 @@ func ownCheck(prop string, apis, policies []string, paused bool, differential bo
 	if prop == "C10" {
 		depth = 2
 	}
-	rep.Rule = fmt.Sprintf("ownership snapshot enumeration: set web (r=3, %v, RU p=0) plus a second set with the same selector; (P) pods at 3 ordinals, up to %d of them replaced by any cell of owner{this,none,other UID,other kind,non-controller ref} x labels{match,no match} x name{S-i,S-x,other-i,S-i-j} x terminating, or absent; (R) full product of three revision slots (data T1=the set's template, T2, T3) each absent or owner{this,none,other UID,other kind} x labels{selector,upgrade marker,both}, x revisionHistoryLimit{0,1,10} x pod-label pinning x equal revision numbers; x API copy of the set %v; paused=%v. One real reconcile per snapshot. %s Non-trivial = at least one write or an error.", policies, depth, apis, paused, ruleText)
+	rep.Rule = fmt.Sprintf("ownership snapshot enumeration: set web (r=3, %v, RU p=0) plus a second set with the same selector; (P) pods at 3 ordinals, up to %d of them replaced by any cell of owner{this,none,other UID,other kind,non-controller ref} x labels{match,no match} x name{S-i,S-x,other-i,S-i-j} x terminating, or absent; (R) full product of three revision slots (data T1=the set's template, T2, T3) each absent or owner{this,none,other UID,other kind} x labels{selector,upgrade marker,both}, x revisionHistoryLimit{0,1,10} x pod-label pinning (none / live pod / terminating pod) x equal revision numbers; x API copy of the set %v; paused=%v. One real reconcile per snapshot. %s Non-trivial = at least one write or an error.", policies, depth, apis, paused, ruleText)
 	rep.Assumptions = apiAssumptions
 	deadline := explore.Deadline(100*time.Second, 15*time.Minute)
 	judge := monitorOf(prop)
@@ -459,17 +461,21 @@ func init() {
 		}
 		ownGrid([]string{"cache-deleting", "api-deleting"}, []string{"Parallel", "OrderedReady"}, false, depth, thorough, emitOwn)
 		if ok {
-			ownGrid([]string{"same"}, []string{"Parallel"}, true, depth, thorough, emitOwn)
+			// paused, also in combination with a deletion timestamp
+			ownGrid([]string{"same", "cache-deleting", "api-deleting"}, []string{"Parallel"}, true, depth, thorough, emitOwn)
 		}
 		desc := ""
 		if ok {
-			for _, flag := range []string{"deleting", "paused"} {
+			for _, flag := range []string{"deleting", "paused", "paused+deleting"} {
 				for gi, o := range tierGrids() {
 					if explore.Tier() != "thorough" && gi > 0 {
 						o.Strategies = []gen.Strategy{gen.RU(0), gen.OnDelete()}
 						o.Histories = []history{histories[1], histories[5]}
 					}
-					o.Deleting, o.Paused = flag == "deleting", flag == "paused"
+					o.Deleting, o.Paused = strings.Contains(flag, "deleting"), strings.Contains(flag, "paused")
+					if flag == "paused+deleting" && gi > 0 {
+						continue
+					}
 					desc += fmt.Sprintf("[%s grid %d] %s. ", flag, gi+1, fmtOpts(o))
 					snapshotGrid(o, func(c explore.Case) bool {
 						n++
@@ -492,7 +498,7 @@ func init() {
 		if ok {
 			c11Resume(rep, explore.Deadline(60*time.Second, 10*time.Minute))
 		}
-		rep.Rule = "snapshot enumeration with the deletion or pause flag raised: (1) the ownership grid of C10 (orphan pods and revisions awaiting adoption, foreign objects) with the set deleting in cache and API, deleting in the API only (stale cache), and paused; (2) the population grids of C03 with the flag raised: " + desc +
+		rep.Rule = "snapshot enumeration with the deletion or pause flag raised: (1) the ownership grid of C10 (orphan pods and revisions awaiting adoption, foreign objects) with the set deleting in cache and API, deleting in the API only (stale cache), paused, and paused while deleting; (2) the population grids of C03 with the flag raised: " + desc +
 			"Oracle: deleting (cached) => no write on pods or claims, no adoption/release patch on anything, no write on a revision the set does not control; API copy deleting with a stale cache => no adoption of pods or revisions; paused => no write at all. (3) resume clause on the search graph of C02's seeds with pause on / pause off as deviations (D=2): for every state s, every state t reached from pause(s) by progress transitions and u = unpause(t), the final states reachable from u are among those reachable from s, and exist."
 		rep.AddStates(n, n)
 		rep.Validated = n
